@@ -411,10 +411,14 @@ def run(rep, progs, tier):
     rep.rule("C19.first-match", "Frame::find/get scan forward; get removes the matched element; lengths derive from fields()")
     rep.trusted = ["rustc MIR construction and callee resolution", "mpdfacts exporter", "std iterator semantics (slice::Iter, vec::IntoIter)"]
     for cfg, prog in progs.items():
-        types = delegation_rule(rep, prog, cfg)
-        hole_skip_rule(rep, prog, cfg)
-        error_last_rule(rep, prog, cfg)
-        two_source_rule(rep, prog, cfg)
-        single_frame_rule(rep, prog, cfg)
-        exact_rule(rep, prog, cfg, types)
-        first_match_rule(rep, prog, cfg)
+        all_rules(rep, prog, cfg)
+
+
+def all_rules(rep, prog, cfg):
+    types = delegation_rule(rep, prog, cfg)
+    hole_skip_rule(rep, prog, cfg)
+    error_last_rule(rep, prog, cfg)
+    two_source_rule(rep, prog, cfg)
+    single_frame_rule(rep, prog, cfg)
+    exact_rule(rep, prog, cfg, types)
+    first_match_rule(rep, prog, cfg)
